@@ -90,6 +90,7 @@ type Frame struct {
 	CallCount map[string]int
 	Spec    *FuncSpec
 	Depth   int
+	OnReturn func(s *State, vals []Value) ([]*State, bool) // continuation run instead of binding the result (engine-built calls)
 	LoopOld map[*ssa.BasicBlock]*Snapshot
 	LoopVariant map[*ssa.BasicBlock]string
 }
